@@ -369,7 +369,7 @@ def write_scsv_header(stream, schema, comments=None):
         stream.write(f"    - name: {_yaml_quote(name)}{os.linesep}")
         stream.write(f"      type: {kind}{os.linesep}")
         if "unit" in field:
-            unit = field["unit"]
+            unit = _yaml_quote(field["unit"])  # '%', 'a: b', '[m]' ... are not plain YAML scalars
             stream.write(f"      unit: {unit}{os.linesep}")
         if "fill" in field:
             fill = field["fill"]
